@@ -26,6 +26,7 @@ func (P) Generate(g *core.Gen) {
 	genPk(g)
 	genEp(g)
 	genConc(g)
+	genPeer(g)
 	if g.Thorough() {
 		for _, l := range bigVectors {
 			kase(g, "vec-big", true, l)
@@ -701,5 +702,27 @@ func genConc(g *core.Gen) {
 			}
 		}
 		kase(g, "conc-peer", true, "C19 conc peer "+strings.Join(ss, ";"))
+	}
+}
+
+// genPeer: peer/peer.go on top of the transport - v2<->v2, v1 initiator against a v2-capable
+// responder (v1 detection + ReceivedPrefix hand-over), v2 initiator against a v1-only responder
+// (downgrade signalling), v1<->v1, wrong network.
+func genPeer(g *core.Gen) {
+	r := g.R
+	nets := []string{"main", "test3", "reg", "sim"}
+	combos := [][3]int{{1, 1, 1}, {0, 1, 1}, {1, 0, 1}, {0, 0, 1}, {0, 1, 0}, {1, 0, 0}}
+	for rep := 0; rep < g.N(1, 6); rep++ {
+		for _, c := range combos {
+			on := nets[r.Intn(len(nets))]
+			in := on
+			if c[2] == 0 {
+				for in == on {
+					in = nets[r.Intn(len(nets))]
+				}
+			}
+			kase(g, fmt.Sprintf("peer-out%d-in%d-samenet%d", c[0], c[1], c[2]), true,
+				fmt.Sprintf("C19 peerhs %d %d %s %s %d", c[0], c[1], on, in, 1+r.Intn(2)))
+		}
 	}
 }
